@@ -23,7 +23,7 @@ RULE = (
     "NaN exactly where the rate is, shape lead+(2,). Relations R-met per matrix through ConfusionMatrix(binary=True): P+N = TOP+TON = POP; "
     "complement pairs sum to 1 or are both NaN; CIs nested in alpha; CI of the complementary rate is the mirrored interval; aliases identical; "
     "class methods == module functions. W1: int and float matrices, leading shapes () to 3-d incl. size-0 axes, zero rows/columns/matrices, counts "
-    "up to 1e12, fractional weights, alpha in (0.001,0.999). WX: all 81 matrices over {0,1,2}. Non-trivial: some cell non-zero; distinct = hash."
+    "up to 1e12, fractional weights, alpha in (0.001,0.999) plus 1e-300..1e-3 and 1-1e-15..1-1e-3. WX: all 81 matrices over {0,1,2}. Non-trivial: some cell non-zero; distinct = hash."
 )
 ASSUMPTIONS = ["non-negative finite entries <= 1e12 (no overflow)", "statistics.NormalDist for z"]
 EXHAUSTIVE_SUBSPACE = "all 81 2x2 matrices with entries in {0,1,2}, as int and as float, 3 alphas"
@@ -75,6 +75,13 @@ def cases(ctx):
         elif lay == 4 and m.dtype.kind == "f":
             m = m.astype(np.float32)
         a1, a2 = sorted(float(x) for x in rng.uniform(0.001, 0.999, 2))
+        u = rng.random()
+        if u < 0.15:  # extreme significance levels: all alpha in (0,1) are in scope
+            a1 = float(10.0 ** -rng.uniform(3, 300))
+        elif u < 0.25:
+            a1, a2 = sorted([float(10.0 ** -rng.uniform(3, 300)), float(10.0 ** -rng.uniform(3, 300))])
+        elif u < 0.32:
+            a2 = float(1.0 - 10.0 ** -rng.uniform(3, 15.5))
         yield {"m": m, "kind": kind, "a1": a1, "a2": a2}
 
 
